@@ -9,7 +9,7 @@
    code (finding F18). *)
 From Chum Require Export Refine Shelter.
 
-Definition Q_on : quirks := mkQ false false false false false false false false true None.
+Definition Q_on : quirks := mkQ false false false false false false false false true false None.
 
 Section MemoP.
 Variable K : ekind.
@@ -47,7 +47,7 @@ Theorem memo_miss_transparent m id x ctx s r s1 :
   (r = Err -> exists new, memo_get (memo s1) (cur s) id = Some (Some new) /\ entry_valid srun x ctx (cur s) new).
 Proof.
   intros Hn He Hw Hi Hg H. cbn [go memo_on Q_on negb q_memo_take] in H. rewrite Hg in H.
-  set (s0 := set_memo s (memo_put (memo s) (cur s) id None)) in H.
+  set (s0 := set_memo s (memo_put (memo s) (cur s) id None n)) in H.
   destruct (go Q_on K toks spn n m x ctx (set_alt s0 None)) as [r1 s2] eqn:E.
   pose proof (HR _ _ _ _ _ _ E Hi) as P. cbn [cur alt sec set_alt s0 set_memo] in P.
   destruct r1.
@@ -75,7 +75,7 @@ Theorem memo_hit_transparent m id x ctx s r s1 new :
   go Q_on K toks spn (S n) m (Memo id x) ctx s = (r, s1) ->
   r = Err /\ err_post s s1 (srun x ctx (cur s) (alt s)).
 Proof.
-  intros Hn He Hw Hg Hv H. cbn [go memo_on Q_on negb q_memo_take] in H. rewrite Hg in H. destruct new as [q e].
+  intros Hn He Hw Hg Hv H. cbn [go memo_on Q_on negb q_memo_take memo_strict andb] in H. rewrite Hg in H. destruct new as [q e].
   injection H as <- <-. split; auto. exists []. rewrite app_nil_r. split; [|reflexivity].
   destruct (HLift _ _ _ _ _ _ Hn He (I : wfr None) Hv) as (W & Lf). exact (Lf (alt s) Hw).
 Qed.
